@@ -3,7 +3,7 @@
 (* Union of all codec modules: one expectation function Exp(op, a) used by *)
 (* both conformance directions, one law predicate and the bounded grids.   *)
 (***************************************************************************)
-EXTENDS Pus1, CfdpMsg, Cds, ByteField, Uslp
+EXTENDS Faults
 
 Exp(op, a) == IF op \in SpOps THEN SpExp(op, a)
               ELSE IF op \in PusOps THEN PusExp(op, a)
@@ -13,6 +13,7 @@ Exp(op, a) == IF op \in SpOps THEN SpExp(op, a)
               ELSE IF op \in BfOps THEN BfExp(op, a)
               ELSE IF op \in UslpOps THEN UslpExp(op, a)
               ELSE IF op \in MsgOps THEN MsgExp(op, a)
+              ELSE IF op \in FaultOps THEN FaultExp(op, a)
               ELSE [unknown |-> op]
 
 Law(op, a) == IF op \in SpOps THEN SpLaw(op, a)
@@ -23,6 +24,7 @@ Law(op, a) == IF op \in SpOps THEN SpLaw(op, a)
               ELSE IF op \in BfOps THEN BfLaw(op, a)
               ELSE IF op \in UslpOps THEN UslpLaw(op, a)
               ELSE IF op \in MsgOps THEN MsgLaw(op, a)
+              ELSE IF op \in FaultOps THEN FaultLaw(op, a)
               ELSE TRUE
 
 CONSTANT Tier
@@ -40,6 +42,9 @@ NParts(area) == CASE area = "cfdphdr" -> CfdpHdrNParts
                   [] area = "bf" -> BfNParts
                   [] area = "uslp" -> UslpNParts
                   [] area = "msg" -> MsgNParts
+                  [] area = "fault" -> FaultNParts
+                  [] area = "sfx" -> SfxNParts
+                  [] area = "rob" -> RobNParts
 
 GridPart(area, i) == CASE area = "cfdphdr" -> CfdpHdrGridPart(i, Tier)
                        [] area = "tlv" -> TlvGridPart(i)
@@ -54,4 +59,7 @@ GridPart(area, i) == CASE area = "cfdphdr" -> CfdpHdrGridPart(i, Tier)
                        [] area = "bf" -> BfGridPart(i)
                        [] area = "uslp" -> UslpGridPart(i)
                        [] area = "msg" -> MsgGridPart(i)
+                       [] area = "fault" -> FaultGridPart(i, Tier)
+                       [] area = "sfx" -> SfxGridPart(i)
+                       [] area = "rob" -> RobGridPart(i)
 =============================================================================
